@@ -175,3 +175,15 @@ CHECKS["C19"] = {
     "units": [{"name": "c19", "pkg": "c19", "run": "^Test", "shards": 8, "fuzz": [{"name": "FuzzRead", "seconds": 90}]}],
     "expect_checks": ["c19.read", "c19.write", "c19.meta-headers", "c19.illegal-writes"],
 }
+
+CHECKS["C08"] = {
+    "level": "exploration",
+    "technique": "property-based testing (rapid under testing/synctest): grammar-generated requests (methods, escaped/dotted paths, queries, 0..12 repeated/empty/long/obs-text headers, cookies, hop-by-hop and Connection-nominated headers, bodies 0..200 KiB quick / 4 MiB thorough sent with Content-Length, chunked or as DATA frames in drawn pieces, request trailers) and backend response scripts (status, headers, streamed bodies with flushes, announced and unannounced trailers), over HTTP/1.1 (raw writer) and HTTP/2 (x/net v0.19.0 Transport client, up to 6 requests in flight), PreserveHost on/off; two-directional validity oracle; plus the binary's transport configuration through the CLI wiring (overlay)",
+    "rule": "case = protocol + PreserveHost + 1..6 request/response pairs (sequential or concurrent). Non-trivial = a body above 64 KiB (exceeds the initial HTTP/2 window), or trailers, or at least three requests in flight; distinct by hash of the script.",
+    "level_text": "Generated-input search with predicates in both directions: method, path, query, body bytes and every end-to-end header value list equal at the backend; hop-by-hop and nominated headers absent; nothing invented beyond forwarding/fingerprint headers and message framing; Host per PreserveHost; status, backend headers, body bytes and trailers equal at the client.",
+    "level_note": _E2E_NOTE + " Header order across different names and exact message framing are not observable through net/http and not part of the statement. Cookie lines are compared after joining with '; ' (RFC 9113 8.2.3).",
+    "assumptions": ["requests always carry a User-Agent (otherwise Go clients add one themselves)", "Expect: 100-continue and Upgrade are not generated"],
+    "units": [{"name": "c08", "pkg": "c08", "run": "^Test", "shards": 12, "timeout": {"quick": 900, "thorough": 7200}},
+              {"name": "c08w", "pkg": ".", "overlay": "root", "run": "^TestVerifWiringC08$", "shards": 2}],
+    "expect_checks": ["c08.passthrough", "c08.wiring"],
+}
